@@ -525,6 +525,26 @@ pub fn build_module(ctx: Arc<HCtx>) -> RpcModule<HCtx> {
 		}
 	})
 	.unwrap();
+	// --- handlers that answer from what the transport attached to the request (`Extensions`): the connection id the
+	// server inserts, or - on the low-level entry points, where the caller owns the request - the harness's own mark
+	fn ext_answer(ext: &jsonrpsee_server::Extensions) -> Value {
+		json!({"ext": ext.get::<jsonrpsee_core::server::ConnectionId>().is_some() || ext.get::<HarnessMark>().is_some()})
+	}
+	m.register_method("ext_sync", |p, c, ext| {
+		c.record("ext_sync", &p, "run");
+		ext_answer(ext)
+	})
+	.unwrap();
+	m.register_async_method("ext_async", |p, c, ext| async move {
+		c.record("ext_async", &p, "run");
+		ext_answer(&ext)
+	})
+	.unwrap();
+	m.register_blocking_method("ext_blocking", |p, c, ext| {
+		c.record("ext_blocking", &p, "run");
+		ext_answer(&ext)
+	})
+	.unwrap();
 	// --- handlers whose (successful) result cannot be serialised: [k] = how many good elements come first
 	m.register_method("unser_sync", |p, c, _| {
 		c.record("unser_sync", &p, "run");
@@ -564,6 +584,10 @@ pub fn build_module(ctx: Arc<HCtx>) -> RpcModule<HCtx> {
 	m
 }
 
+/// what the harness attaches to the requests it hands to the low-level entry points itself
+#[derive(Clone, Debug)]
+pub struct HarnessMark;
+
 /// A value whose serialisation fails after `self.0 % 4` elements of a sequence have been written
 #[derive(Clone, Debug)]
 pub struct Unser(pub u8);
@@ -582,7 +606,7 @@ impl Serialize for Unser {
 pub fn is_registered_call(name: &str) -> bool {
 	matches!(
 		name,
-		"unser_sync" | "unser_async" | "unser_blocking" |
+		"unser_sync" | "unser_async" | "unser_blocking" | "ext_sync" | "ext_async" | "ext_blocking" |
 		"echo_sync" | "typed_sync" | "fail_sync" | "big_sync" | "echo_async" | "typed_async" | "fail_async" | "big_async" | "gated_async"
 			| "echo_blocking" | "typed_blocking" | "fail_blocking" | "big_blocking" | "gated_blocking" | "blocking_panic" | "guard_probe"
 	)
@@ -879,12 +903,13 @@ impl Fixture {
 		let guard = self.lowlevel_guard.clone();
 		let tasks = self.lowlevel_conn_tasks.clone();
 		let conn_id = self.lowlevel_conn_ids.fetch_add(1, Ordering::SeqCst) as u32 + 500;
-		let svc = tower::service_fn(move |req: ::http::Request<hyper::body::Incoming>| {
+		let svc = tower::service_fn(move |mut req: ::http::Request<hyper::body::Incoming>| {
 			let methods = methods.clone();
 			let server_cfg = server_cfg.clone();
 			let stop = stop.clone();
 			let guard = guard.clone();
 			let tasks = tasks.clone();
+			req.extensions_mut().insert(HarnessMark);
 			async move {
 				let Some(permit) = guard.try_acquire() else {
 					return Ok::<_, Infallible>(jsonrpsee_server::http::response::too_many_requests());
@@ -914,10 +939,11 @@ impl Fixture {
 	pub async fn http_lowlevel(&self, req: HttpReq) -> HttpResp {
 		use jsonrpsee_server::ConnectionState;
 		use jsonrpsee_server::middleware::rpc::RpcServiceBuilder;
-		let request = match build_request(&req) {
+		let mut request = match build_request(&req) {
 			Ok(r) => r,
 			Err(e) => return HttpResp { status: 0, body: e.into_bytes(), content_type: None },
 		};
+		request.extensions_mut().insert(HarnessMark);
 		let guard = ConnectionGuard::new(8);
 		let conn = ConnectionState::new(self.stop.clone(), 0, guard.try_acquire().unwrap());
 		let resp = jsonrpsee_server::http::call_with_service_builder(request, self.server_cfg.clone(), conn, self.methods.clone(), RpcServiceBuilder::new()).await;
